@@ -369,10 +369,11 @@ fn make_etag(
     }
 
     let parsed_uri = Url::parse(&format!("https://example.com{uri}")).unwrap();
-    let mut query_pairs = parsed_uri.query_pairs();
-
-    let (cup2key_key, cup2key_val) = query_pairs.next().unwrap();
-    assert_eq!(cup2key_key, "cup2key");
+    // The client appends cup2key to whatever query the service URL already has,
+    // so look the parameter up by name; a request without it carries no CUP.
+    let (_, cup2key_val) = parsed_uri
+        .query_pairs()
+        .find(|(key, _)| key == "cup2key")?;
 
     let (public_key_id_str, _nonce_str) = cup2key_val.split_once(':').unwrap();
     let public_key_id: PublicKeyId = public_key_id_str.parse().unwrap();
